@@ -51,9 +51,7 @@ def _cases(draw, tier):
     choices = draw(strategies.choice_lists) if mode != 'cbc' else []
     decoy = _lp.draw_decoy(draw, inst)
     _ret = {'inst': inst, 'opts': opts, 'choices': choices, 'mode': mode, 'salt': salt}
-    if decoy:
-        _ret['decoy'] = decoy
-    return _ret
+    return _lp.attach_decoy(_ret, decoy)
 
 
 def strategy(tier):
